@@ -149,6 +149,28 @@ func c17Families(thorough bool) []c17Member {
 		sb.WriteString("\treturn t\n}\n")
 		out = append(out, c17Member{"nested-loops-dependent-starts", n, sb.String(), ""})
 	}
+	// F3b2: every counter starts from AND steps by the counter directly outside it (the rendering of
+	// a recurrence names the enclosing recurrence twice, level after level, beyond the depth guard)
+	for _, n := range []int{5, 10, 20, 22, 24, 30, 45} {
+		for _, form := range []string{"start-and-step", "two-leaf-start"} {
+			var sb strings.Builder
+			sb.WriteString(hdr + "func F(a int) int {\n\tt := 0\n\tfor i0 := 1; i0 < a; i0++ {\n")
+			for k := 1; k < n; k++ {
+				ind := strings.Repeat("\t", k+1)
+				if form == "start-and-step" {
+					fmt.Fprintf(&sb, "%sfor i%d := i%d; i%d < a; i%d += i%d {\n", ind, k, k-1, k, k, k-1)
+				} else {
+					fmt.Fprintf(&sb, "%sfor i%d := i%d + i%d; i%d < a; i%d++ {\n", ind, k, k-1, k-1, k, k)
+				}
+			}
+			fmt.Fprintf(&sb, "%st += i%d\n", strings.Repeat("\t", n+1), n-1)
+			for k := n - 1; k >= 0; k-- {
+				fmt.Fprintf(&sb, "%s}\n", strings.Repeat("\t", k+1))
+			}
+			sb.WriteString("\treturn t\n}\n")
+			out = append(out, c17Member{"nested-loops-" + form + "-from-enclosing", n, sb.String(), ""})
+		}
+	}
 	// F3c: nested loops whose start is a self-doubling chain over the enclosing counter (the
 	// renamer expands an outer counter's recurrence at every leaf of the inner start expression)
 	for _, n := range c17NestedDoubling {
